@@ -136,6 +136,59 @@ class C14(Prop):
         return [("rerun-with-comment", {"objs": [{"src": src, "ctor": {}}], "steps": two}),
                 ("rerun-trailing-set", {"objs": [{"src": dict(src, trailing_set=True), "ctor": {}}], "steps": two})]
 
+    def machine(self, tier, collector):
+        """the same history property in Hypothesis' stateful mode: rules construct objects and call run(); the invariant compares
+        every earlier result with its snapshot. A violating history is handed to the collector as an ordinary (replayable) case."""
+        from hypothesis.stateful import RuleBasedStateMachine, initialize, invariant, precondition, rule
+
+        prop = self
+
+        class RunHistory(RuleBasedStateMachine):
+            def __init__(self):
+                super().__init__()
+                self.case = {"objs": [], "steps": []}
+                self.parsers = []
+                self.returned = []
+                self.broken = False
+                self.cwd = sorted(os.listdir("."))
+
+            def _add(self, src, norm, silent):
+                ctor = {}
+                if norm is not None:
+                    ctor["normalize_names"] = norm
+                if silent is not None:
+                    ctor["silent"] = silent
+                try:
+                    self.parsers.append(loader.make_parser(source_text(src), **ctor))
+                    self.case["objs"].append({"src": src, "ctor": ctor})
+                except Exception:
+                    self.broken = True
+
+            @initialize(src=ddl_source(), norm=st.one_of(st.none(), st.booleans()), silent=st.one_of(st.none(), st.booleans()))
+            def first_object(self, src, norm, silent):
+                self._add(src, norm, silent)
+
+            @precondition(lambda self: len(self.parsers) < 3 and not self.broken)
+            @rule(src=ddl_source(), norm=st.one_of(st.none(), st.booleans()), silent=st.one_of(st.none(), st.booleans()))
+            def construct(self, src, norm, silent):
+                self._add(src, norm, silent)
+
+            @precondition(lambda self: self.parsers and not self.broken)
+            @rule(i=st.integers(0, 2), args=run_args(), fresh=st.integers(0, 4))
+            def run(self, i, args, fresh):
+                self.case["steps"].append({"o": i % len(self.parsers), "fresh": fresh == 0, "run": args})
+                # evaluate the whole history so far on fresh objects: the verdict of a history is a pure function of the case
+                out = prop.evaluate({"objs": self.case["objs"], "steps": self.case["steps"]})
+                collector.record(dict(self.case, steps=list(self.case["steps"]), objs=list(self.case["objs"])), out)
+                if out.violations:
+                    self.broken = True
+
+            @invariant()
+            def no_files_created(self):
+                assert sorted(os.listdir(".")) == self.cwd or self.broken
+
+        return RunHistory
+
     def describe(self, case):
         return {"texts": [source_text(o["src"]) for o in case["objs"]], "ctor": [o["ctor"] for o in case["objs"]],
                 "history": ["%s%d.run(%s)" % ("fresh " if s["fresh"] else "", s["o"], s["run"]) for s in case["steps"]]}
